@@ -198,7 +198,7 @@ func (rp *reporter) ReportEntry(nextCookie uint64, name path.Component, child vi
 
 // ---- world ---------------------------------------------------------------------------
 
-var names = []string{"a", "b", "c", "d", ".hidden"}
+var names = []string{"a", "b", "c", "a", "b", ".hidden"}
 
 const (
 	maskPlain  = virtual.AttributesMaskFileType | virtual.AttributesMaskInodeNumber
@@ -861,6 +861,17 @@ func main() {
 				res.Count("checker-violation: " + name)
 			}
 		}
+		if a, err := drv.Ask("edges"); err == nil {
+			for _, e := range splitList(a) {
+				res.Count("acquired-while-holding: " + e)
+			}
+		}
+		if a, err := drv.Ask("orderviolations"); err == nil {
+			for _, e := range splitList(a) {
+				res.Report(hx.Finding{Kind: "mismatch", Property: "C14", Name: "BbRe.Properties.C14Generated.class_graph_ok",
+					What: "lock-order obligation fails: " + e, Sig: hx.Sig("C14", "order", e)})
+			}
+		}
 		drv.Close()
 	}
 
@@ -873,6 +884,9 @@ func main() {
 	sort.Strings(keys)
 	for _, fn := range keys {
 		for _, h := range catalogue[fn] {
+			if demonstrated[fn] {
+				break
+			}
 			for _, nfs := range []bool{false, true} {
 				what, at := runHistory(o.Seed, nfs, h, res)
 				res.TracesVsImpl++
@@ -903,7 +917,7 @@ func main() {
 
 	// 3. random call sequences
 	r := hx.NewRand(o.Seed)
-	nHist, nOps := 1500, 30
+	nHist, nOps := 3000, 40
 	if o.Tier == "thorough" {
 		nHist, nOps = 6000, 60
 	}
